@@ -216,6 +216,11 @@ func registerIntrinsics(p *Program) {
 		if _, ok := UFs[name]; !ok {
 			panic(Inconclusive{"unknown UF " + name})
 		}
+		if name == "qescape" && len(args) == 1 && IsCharList(args[0]) {
+			if f := ex.P.Prog.ImportedPackage(stubsPkg).Func("QueryEscapeChars"); f != nil {
+				return ex.CallFunction(fr, f, []Value{args[0]}, nil)
+			}
+		}
 		if len(args) == 1 && args[0].IsConst() {
 			switch name { // concrete arguments: the real function
 			case "qescape":
